@@ -41,12 +41,14 @@ type rec struct {
 	D bool `json:"d"`
 }
 type item struct {
-	K    int  `json:"k"`
-	Post bool `json:"post"`
+	K     int  `json:"k"`
+	Post  bool `json:"post"`
+	Touch bool `json:"touch,omitempty"` // SET another field: status stays as stored / as seeded
 }
 type prog struct {
 	Kind   string `json:"kind"` // PT PE SH WDel WPut WExp
 	Create bool   `json:"create,omitempty"`
+	Seed   int    `json:"seed,omitempty"` // InitialMsgpackOnCreate: 0 none, 1 {status: pending}, 2 {status: claimed}
 	Items  []item `json:"items,omitempty"`
 	Hm     int    `json:"hm,omitempty"`
 	Post   bool   `json:"post,omitempty"`
@@ -114,9 +116,13 @@ func runProg(e *lib.Env, sw string, max int, p prog) []kc {
 	case "PT":
 		items := make([]lib.PatchItem, len(p.Items))
 		for i, it := range p.Items {
-			items[i] = lib.PatchItem{Key: key(it.K), Status: status(it.Post)}
+			items[i] = lib.PatchItem{Key: key(it.K), Status: status(it.Post), Touch: it.Touch}
 		}
-		r, err := e.PatchStatus(sw, items, cap, p.Create, nil)
+		var seedBody []byte
+		if p.Seed > 0 {
+			seedBody = lib.Enc(map[string]interface{}{"status": status(p.Seed == 2)})
+		}
+		r, err := e.PatchStatusSeed(sw, items, cap, p.Create, nil, seedBody)
 		if err != nil {
 			return []kc{{-1, -1}}
 		}
@@ -194,7 +200,11 @@ func cProg(p prog) string {
 	case "PT":
 		its := []string{}
 		for _, it := range p.Items {
-			its = append(its, fmt.Sprintf("{| ik := %s; ipf := %s; ipt := %s |}", common.N(uint64(it.K)), common.Bool(it.Post), common.Bool(it.Post)))
+			pf, pt, pc := it.Post, it.Post, it.Post
+			if it.Touch {
+				pf, pt, pc = false, true, p.Seed == 2
+			}
+			its = append(its, fmt.Sprintf("{| ik := %s; ipf := %s; ipt := %s; ipc := %s |}", common.N(uint64(it.K)), common.Bool(pf), common.Bool(pt), common.Bool(pc)))
 		}
 		return common.App("PT", common.Bool(p.Create), common.List(its))
 	case "PE":
@@ -265,9 +275,13 @@ func genProg(r *common.Rng, nkeys int, capOnly bool) prog {
 		n := 1 + r.Intn(3)
 		its := []item{}
 		for i := 0; i < n; i++ {
-			its = append(its, item{K: 1 + r.Intn(nkeys+2), Post: r.Chance(80)})
+			its = append(its, item{K: 1 + r.Intn(nkeys+3), Post: r.Chance(80), Touch: r.Chance(20)})
 		}
-		return prog{Kind: "PT", Create: r.Chance(40), Items: its}
+		p := prog{Kind: "PT", Create: r.Chance(50), Items: its}
+		if p.Create && r.Chance(60) {
+			p.Seed = 1 + r.Intn(2)
+		}
+		return p
 	case c < 66:
 		nx := r.Chance(70)
 		return prog{Kind: "PE", Hm: 1 + r.Intn(3), Post: r.Chance(85), Nx: nx, Nd: nx && r.Chance(15)}
@@ -288,9 +302,10 @@ func plans(p prog, r *common.Rng, t int) [][]mstep {
 	f := mstep{"Finish", t}
 	switch p.Kind {
 	case "PT":
-		return [][]mstep{{{"Count", t}, f}, {f}}
+		return [][]mstep{{{"Count", t}, f}, {f}, {{"Count", t}, {"One", t}, f}, {{"Count", t}, {"One", t}, {"One", t}, f}}
 	case "PE":
-		return [][]mstep{{{"Select", t}, {"Patched", t}, f}, {{"Select", t}, f}, {f}}
+		return [][]mstep{{{"Select", t}, {"Patched", t}, f}, {{"Select", t}, f}, {f},
+			{{"Select", t}, {"One", t}, f}, {{"Select", t}, {"One", t}, {"Patched", t}, f}}
 	}
 	return [][]mstep{{f}}
 }
@@ -361,16 +376,40 @@ func runForced(e *lib.Env, max int, rs []rec, ps []prog, sched []mstep, kind str
 		})
 	}
 	finished := map[int]bool{}
+	at := map[int]string{}
 	for _, m := range sched {
 		if finished[m.T] {
 			continue
 		}
+		if m.Kind == "One" && at[m.T] == "" {
+			continue // a batch is stepped only after its Count / Select
+		}
 		var got string
-		if m.Kind == "Finish" {
+		switch {
+		case m.Kind == "Finish":
 			got = ctl.Advance(m.T, stepTimeout)
-		} else {
+		case m.Kind == "One" && ps[m.T].Kind == "PT":
+			// one per-key patch: from the count point the first beforeKey is reached without any
+			// patch, so it is absorbed
+			if at[m.T] == "gateway.capPreCount.counted" {
+				got = ctl.Advance(m.T, stepTimeout, "gateway.patchTreasures.beforeKey")
+				if got == "blocked" {
+			// confirm: on a loaded machine a slow (not blocked) thread must not be taken for blocked
+			if again := ctl.Wait(m.T, 3*stepTimeout); again != "blocked" {
+				got = again
+			}
+		}
+		at[m.T] = got
+			}
+			if at[m.T] == "gateway.patchTreasures.beforeKey" {
+				got = ctl.Advance(m.T, stepTimeout, "gateway.patchTreasures.beforeKey")
+			}
+		case m.Kind == "One":
+			got = ctl.Advance(m.T, stepTimeout, "swamp.patchExpired.afterPatch")
+		default:
 			got = ctl.Advance(m.T, stepTimeout, siteOf[m.Kind])
 		}
+		at[m.T] = got
 		switch {
 		case got == "blocked":
 			mm := m
@@ -574,11 +613,30 @@ func main() {
 						rs = append([]rec{{K: 1, M: pre}}, rs...)
 					}
 					rs = append(rs, rec{K: 60}, rec{K: 61}, rec{K: 62})
-					p := prog{Kind: "PT", Create: !existing, Items: []item{{1, post}, {60, true}, {61, true}, {62, true}}}
+					p := prog{Kind: "PT", Create: !existing, Items: []item{{K: 1, Post: post}, {K: 60, Post: true}, {K: 61, Post: true}, {K: 62, Post: true}}}
 					o := runSeq(e, max, rs, []prog{p}, "table")
 					add(o)
 					run.Hist(fmt.Sprintf("cell:pre=%v,post=%v,budget=%d,existing=%v", pre, post, budget, existing))
 				}
+			}
+		}
+	}
+
+	// 1b. the create cells: CreateIfNotExist with every seed (none, not matching, matching) x every
+	// kind of op (sets a non-matching / matching status, or leaves the seeded status) x budget
+	for seed := 0; seed <= 2; seed++ {
+		for kind := 0; kind < 3; kind++ {
+			for budget := 0; budget <= 2; budget++ {
+				max := 2
+				rs := []rec{}
+				for f := 0; f < max-budget; f++ {
+					rs = append(rs, rec{K: 50 + f, M: true})
+				}
+				rs = append(rs, rec{K: 60}, rec{K: 61}, rec{K: 62})
+				first := item{K: 1, Post: kind == 1, Touch: kind == 2}
+				p := prog{Kind: "PT", Create: true, Seed: seed, Items: []item{first, {K: 2, Touch: true}, {K: 60, Post: true}, {K: 61, Post: true}, {K: 62, Post: true}, {K: 1, Touch: true}}}
+				add(runSeq(e, max, rs, []prog{p}, "table-create"))
+				run.Hist(fmt.Sprintf("cell-create:seed=%d,op=%d,budget=%d", seed, kind, budget))
 			}
 		}
 	}
@@ -613,12 +671,13 @@ func main() {
 	// 3. forced schedules: the witness of the old code first, then all interleavings for menus of
 	// two threads, then random three-thread schedules
 	w := []rec{{K: 1}, {K: 2}}
-	wp := []prog{{Kind: "PT", Items: []item{{1, true}}}, {Kind: "PT", Items: []item{{2, true}}}}
+	wp := []prog{{Kind: "PT", Items: []item{{K: 1, Post: true}}}, {Kind: "PT", Items: []item{{K: 2, Post: true}}}}
 	add(runForced(e, 1, w, wp, []mstep{{"Count", 0}, {"Count", 1}, {"Finish", 0}, {"Finish", 1}}, "forced-witness"))
 	base := []rec{{K: 1, X: true, D: true}, {K: 2, X: true, D: true}, {K: 3}, {K: 4, M: true}}
 	menu := []prog{
-		{Kind: "PT", Items: []item{{1, true}, {3, true}}},
-		{Kind: "PT", Create: true, Items: []item{{9, true}}},
+		{Kind: "PT", Items: []item{{K: 1, Post: true}, {K: 3, Post: true}}},
+		{Kind: "PT", Create: true, Items: []item{{K: 9, Post: true}}},
+		{Kind: "PT", Create: true, Seed: 2, Items: []item{{K: 10, Touch: true}, {K: 3, Touch: true}, {K: 10, Post: false}}},
 		{Kind: "PE", Hm: 2, Post: true, Nx: true},
 		{Kind: "PE", Hm: 1, Post: true},
 		{Kind: "SH", Hm: 1},
@@ -626,6 +685,11 @@ func main() {
 		{Kind: "WPut", K: 1, Nx: true, Nd: true},
 	}
 	nblocked := 0
+	type cand struct {
+		ps    []prog
+		sched []mstep
+	}
+	var free, blockedCount, blockedOther []cand
 	for i := 0; i < len(menu); i++ {
 		for j := i; j < len(menu); j++ {
 			ps := []prog{menu[i], menu[j]}
@@ -635,23 +699,61 @@ func main() {
 			for _, p0 := range plans(ps[0], rng, 0) {
 				for _, p1 := range plans(ps[1], rng, 1) {
 					for _, sched := range interleavings([][]mstep{p0, p1}) {
-						if !thorough && rng.Chance(45) {
-							continue
+						// schedules in which a release is expected to block on capMu cost a timeout each;
+						// those whose blocked release is a PatchTreasures count have the shape of the
+						// count-before-lock witness
+						switch expectBlocked(ps, sched) {
+						case "":
+							free = append(free, cand{ps, sched})
+						case "Count":
+							blockedCount = append(blockedCount, cand{ps, sched})
+						default:
+							blockedOther = append(blockedOther, cand{ps, sched})
 						}
-						// schedules in which a release is expected to block on capMu cost a timeout each:
-						// keep every one whose blocked release is a PatchTreasures count (the shape of
-						// the count-before-lock witness), sample the others
-						if b := expectBlocked(ps, sched); b != "" && b != "Count" && !thorough && rng.Chance(80) {
-							continue
-						}
-						max := 2
-						o := runForced(e, max, base, ps, sched, "forced2")
-						if o.Blocked != nil {
-							nblocked++
-						}
-						add(o)
 					}
 				}
+			}
+		}
+	}
+	take := func(cs []cand, n int) {
+		if thorough {
+			n *= 8
+		}
+		for k := 0; k < n && len(cs) > 0; k++ {
+			i := rng.Intn(len(cs))
+			c := cs[i]
+			cs[i] = cs[len(cs)-1]
+			cs = cs[:len(cs)-1]
+			o := runForced(e, 2, base, c.ps, c.sched, "forced2")
+			if o.Blocked != nil {
+				nblocked++
+			}
+			add(o)
+		}
+	}
+	take(free, 170)
+	take(blockedCount, 35)
+	take(blockedOther, 25)
+	// selections that are NOT bounded by the cap (budget left over, every candidate taken): the
+	// caller must still hold capMu until its records are patched into the filter
+	for _, nb := range []int{1, 2, 3} {
+		for _, second := range []string{"PT", "PTcreate", "PE"} {
+			for _, steps := range [][]mstep{{{"Select", 0}, {"Finish", 1}, {"Finish", 0}}, {{"Select", 0}, {"One", 0}, {"Finish", 1}, {"Finish", 0}},
+				{{"Select", 0}, {"One", 0}, {"Finish", 2}, {"Finish", 1}, {"Finish", 0}}} {
+				rs := []rec{{K: 1, X: true, D: true}, {K: 2, X: true, D: true}, {K: 5}, {K: 6}, {K: 7}}
+				max := 2 + nb
+				a := prog{Kind: "PE", Hm: 2 + rng.Intn(2), Post: true, Nx: true}
+				var b prog
+				switch second {
+				case "PT":
+					b = prog{Kind: "PT", Items: []item{{K: 5, Post: true}, {K: 6, Post: true}, {K: 7, Post: true}}}
+				case "PTcreate":
+					b = prog{Kind: "PT", Create: true, Seed: 2, Items: []item{{K: 20, Touch: true}, {K: 21, Touch: true}, {K: 22, Post: true}}}
+				default:
+					b = prog{Kind: "PE", Hm: 5, Post: true, Nx: true}
+				}
+				w := prog{Kind: "WPut", K: 9, Nx: true, Nd: true}
+				add(runForced(e, max, rs, []prog{a, b, w}, steps, "forced-unbounded"))
 			}
 		}
 	}
@@ -660,7 +762,7 @@ func main() {
 		n3 = 700
 	}
 	for i := 0; i < n3; i++ {
-		max := 1 + rng.Intn(3)
+		max := 1 + rng.Intn(5)
 		n := 4 + rng.Intn(3)
 		rs := genRecs(rng, n, max)
 		ps := []prog{genProg(rng, n, true), genProg(rng, n, false), genProg(rng, n, false)}
